@@ -168,6 +168,12 @@ func (rg *rig) readCase(cs caseSpec, id string, rng *rand.Rand) {
 	rg.noteCase(cs.label())
 	open0 := rg.openNow(rg.lastOpen)
 	defer rg.attributeOpen(open0, cs, p, det)
+	defer func() {
+		rg.be.forget(o.hash)
+		if o.acRef != nil {
+			rg.be.forget(o.acRef.hash)
+		}
+	}()
 
 	n0 := rg.be.reqCount(o.hash)
 	out1 := rg.runOp(cs.op, rg.front, o)
@@ -407,7 +413,7 @@ func (rg *rig) classBatches(half int) {
 				out := rg.runOp(opAPIGetUnknown, rg.front, o)
 				r.Eval()
 				r.Count(fmt.Sprintf("class-batch.%s/%s.%s", rg.name, name, out.class))
-				rg.be.clearPlan(o.hash)
+				rg.be.forget(o.hash)
 			}
 			counts[b] = settle()
 		}
